@@ -39,6 +39,7 @@ type e2eStep struct {
 	Mb   string   `json:"mb"`
 	N    int      `json:"n"` // 1-based position in the mailbox (delete/seen) or in the POP3 listing (popdele)
 	Mon  int      `json:"mon"`
+	Ver  string   `json:"ver"` // join: monitor protocol "v1" (stored messages only) | "v2"
 }
 
 type e2eBehaviour struct {
@@ -69,6 +70,8 @@ func (m *e2eMon) reader() {
 			return
 		}
 		var e struct {
+			Mailbox    string `json:"mailbox"` // v1: the message header itself
+			ID         string `json:"id"`
 			Variant    string `json:"variant"`
 			Identifier *struct {
 				Mailbox string `json:"mailbox"`
@@ -87,6 +90,8 @@ func (m *e2eMon) reader() {
 			ev["mb"], ev["id"] = e.Header.Mailbox, e.Header.ID
 		} else if e.Identifier != nil {
 			ev["mb"], ev["id"] = e.Identifier.Mailbox, e.Identifier.ID
+		} else if e.Variant == "" && e.ID != "" {
+			ev["variant"], ev["mb"], ev["id"] = "message-stored", e.Mailbox, e.ID // protocol v1
 		}
 		m.mu.Lock()
 		m.evs = append(m.evs, ev)
@@ -374,8 +379,12 @@ func cmdE2E(args []string) error {
 					resp.Body.Close()
 				}
 			case "join":
-				ev["mon"], ev["filter"] = st.Mon, st.Mb
-				u := e.wsbase + "/api/v2/monitor/messages"
+				ver := st.Ver
+				if ver == "" {
+					ver = "v2"
+				}
+				ev["mon"], ev["filter"], ev["ver"] = st.Mon, st.Mb, ver
+				u := e.wsbase + "/api/" + ver + "/monitor/messages"
 				if st.Mb != "" {
 					u += "/" + url.PathEscape(st.Mb)
 				}
